@@ -584,23 +584,25 @@ func (s *Stream) StartMessageRead(ctx context.Context) error {
 	return nil
 }
 
-// readNextFrame reads the next frame and appends to receive buffer
+// readNextFrame reads frames up to and including the one that ends the
+// message, appending each to the receive buffer. It loops rather than recursing:
+// the number of partial frames in a message is chosen by the peer.
 func (s *Stream) readNextFrame(ctx context.Context) error {
-	frameData, endFlag, err := s.ReceiveFrameWithEnd(ctx)
-	if err != nil {
-		return err
+	for {
+		frameData, endFlag, err := s.ReceiveFrameWithEnd(ctx)
+		if err != nil {
+			return err
+		}
+
+		// Append frame data to receive buffer
+		s.receiveBuffer = append(s.receiveBuffer, frameData...)
+		s.totalMsgBytes = len(s.receiveBuffer)
+
+		// If this is not the final frame, read more frames
+		if endFlag != EndFlagPartial {
+			return nil
+		}
 	}
-
-	// Append frame data to receive buffer
-	s.receiveBuffer = append(s.receiveBuffer, frameData...)
-	s.totalMsgBytes = len(s.receiveBuffer)
-
-	// If this is not the final frame, read more frames
-	if endFlag == EndFlagPartial {
-		return s.readNextFrame(ctx) // Recursively read until complete message
-	}
-
-	return nil
 }
 
 // ReceiveCompleteMessage receives a complete message, reading multiple frames if necessary
